@@ -121,7 +121,9 @@ func (s *store) dump() string {
 
 // runOp performs one generated call against the live gater, updates the model when the
 // call returned success and checks the restart state right after the write.
-func runOp(f failer, g *conngater.BasicConnectionGater, st *store, w *world, m *model, o op, ob *obs, hist *[]string) {
+// With verify=false (composition tests) only the call and the model update happen, so that
+// those tests judge the composition alone.
+func runOp(f failer, g *conngater.BasicConnectionGater, st *store, w *world, m *model, o op, ob *obs, hist *[]string, verify bool) {
 	before := m.clone()
 	wr0 := 0
 	if st != nil {
@@ -142,7 +144,7 @@ func runOp(f failer, g *conngater.BasicConnectionGater, st *store, w *world, m *
 	} else if !o.fail || st == nil {
 		f.Fatalf("%s returned %v although the datastore accepted every write", o.describe(w), err)
 	}
-	if st != nil && st.writes > wr0 {
+	if verify && st != nil && st.writes > wr0 {
 		// "the process stopped between the datastore write and the in-memory update of
 		// this call": restart from the snapshot; the call in flight may go either way.
 		snap := fromSnapshot(st.snap)
@@ -190,7 +192,7 @@ func TestRuleHistories(t *testing.T) {
 			if o.fail {
 				failedOK++
 			}
-			runOp(rt, g, st, w, m, o, &ob, &hist)
+			runOp(rt, g, st, w, m, o, &ob, &hist, true)
 		}
 		reopen := func(rt *rapid.T) {
 			if st == nil {
